@@ -1,7 +1,10 @@
 import PV.Common.Proto
 import PV.C14.Model
+import PV.C14.Fixed
 /-! Driver for C14: answers the same request lines as `harness/src/bin/pvh_c14.rs` with the model.
-    Signature syntax: see the header of that file. -/
+    Signature syntax: see the header of that file.
+    With `PV_C14_MODEL=fixed` in the environment the repaired functions of `PV/C14/Fixed.lean` answer
+    (used once fixes/C14-kwonly-defaults.diff is applied; see `FIX_APPLIED` in tools/props/c14.py). -/
 open PV PV.C14
 
 def parseParamD (s : String) : Option ParamD :=
@@ -78,32 +81,44 @@ def showPy (p : PyArguments) : String :=
                showList (p.defaults.map toString), showOptParam p.vararg,
                showList (p.kwonly.map showParam), showList (p.kwDefaults.map toString), showOptParam p.kwarg]
 
-def handleRt (a : Arguments) : String :=
-  let back (p : PyArguments) : String := optStr showArguments (intoArguments p)
-  s!"in={showArguments a} to={back (toPython a)} into={back (intoPython a)} from={back (fromArguments a)}"
+/-- the conversion functions under test: the model of the code as it is, or of the repaired code -/
+structure Impl where
+  toPy : Arguments → PyArguments
+  intoPy : Arguments → PyArguments
+  fromArgs : Arguments → PyArguments
+  intoArgs : PyArguments → Option Arguments
 
-def handleToPy (a : Arguments) : String :=
+def implCurrent : Impl := ⟨toPython, intoPython, fromArguments, intoArguments⟩
+def implFixed : Impl := ⟨Fixed.toPython, Fixed.toPython, Fixed.toPython, Fixed.intoArguments⟩
+
+def handleRt (m : Impl) (a : Arguments) : String :=
+  let back (p : PyArguments) : String := optStr showArguments (m.intoArgs p)
+  s!"in={showArguments a} to={back (m.toPy a)} into={back (m.intoPy a)} from={back (m.fromArgs a)}"
+
+def handleToPy (m : Impl) (a : Arguments) : String :=
   let (nd, wd) := splitKwonly a
   let split := showList (nd.map showParam) ++ "/" ++ showList (wd.map fun (p, d) => s!"{showParam p}={d}")
-  s!"in={showArguments a} to={showPy (toPython a)} into={showPy (intoPython a)} from={showPy (fromArguments a)} split={split}"
+  s!"in={showArguments a} to={showPy (m.toPy a)} into={showPy (m.intoPy a)} from={showPy (m.fromArgs a)} split={split}"
 
-def handle : List String → String
+def handle (m : Impl) : List String → String
   | ["rt", mode, sig] =>
     if mode == "b" || mode == "p" then
       match parseSig sig with
-      | some a => handleRt a
+      | some a => handleRt m a
       | none => "bad-request"
     else "bad-request"
   | ["topy", mode, sig] =>
     if mode == "b" || mode == "p" then
       match parseSig sig with
-      | some a => handleToPy a
+      | some a => handleToPy m a
       | none => "bad-request"
     else "bad-request"
   | ["intoargs", pysig] =>
     match parsePySig pysig with
-    | some p => s!"in={showPy p} back={optStr showArguments (intoArguments p)}"
+    | some p => s!"in={showPy p} back={optStr showArguments (m.intoArgs p)}"
     | none => "bad-request"
   | _ => "bad-request"
 
-def main : IO Unit := protoLoop handle
+def main : IO Unit := do
+  let fixed := (← IO.getEnv "PV_C14_MODEL") == some "fixed"
+  protoLoop (handle (if fixed then implFixed else implCurrent))
